@@ -1205,6 +1205,108 @@ def gen_response_vars(cls, out):
         raise Unsupported('MMA.response: response / read-back of the design vector not found after the write-back')
 
 
+def _stores_of(fn, name):
+    """all statements of the function that bind the local `name` (assignment, augmented assignment, loop target, with / except)"""
+    out = []
+    for n in ast.walk(fn):
+        if isinstance(n, (ast.Assign, ast.AnnAssign, ast.AugAssign)):
+            tg = n.targets if isinstance(n, ast.Assign) else [n.target]
+            for t in tg:
+                if any(isinstance(m, ast.Name) and m.id == name for m in ast.walk(t) if isinstance(m, ast.Name) and isinstance(m.ctx, ast.Store)):
+                    out.append(n)
+        elif isinstance(n, (ast.For, ast.comprehension)):
+            if any(isinstance(m, ast.Name) and m.id == name for m in ast.walk(n.target)):
+                out.append(n)
+        elif isinstance(n, ast.NamedExpr) and n.target.id == name:
+            out.append(n)
+    return out
+
+
+def gen_response_sens(cls, out):
+    """"Calculate and save sensitivities" of MMA.response: inside the iteration loop, for every response a FRESH row is built from
+    what the variable signals hold after the sensitivity run (v.sensitivity, or 0*v.state when it is None) and the rows of this
+    iteration (and nothing else) are handed to mmasub.  Emits gen_sens_item / gen_sens_row (Model/MMAvars.sens_row)."""
+    fn = find_func(cls, 'response')
+    loop = [s for s in fn.body if isinstance(s, ast.While)][0]
+    wb = loop.body
+    U = ast.unparse
+    rl = [s for s in wb if isinstance(s, ast.For) and U(s.iter) == 'enumerate(self.responses)']
+    if len(rl) != 1:
+        raise Unsupported('MMA.response: the loop over the responses that collects the sensitivities was not found (exactly one expected)')
+    rl = rl[0]
+    if rl.orelse or not (isinstance(rl.target, ast.Tuple) and len(rl.target.elts) == 2 and all(isinstance(e, ast.Name) for e in rl.target.elts)):
+        raise Unsupported('MMA.response: sensitivity loop target')
+    rname = rl.target.elts[1].id
+    body = rl.body
+    if len(body) != 8:
+        raise Unsupported(f'MMA.response: sensitivity loop has {len(body)} statements, expected 8 (reset the responses, seed, sensitivity run, '
+                          'empty list, append per variable, concatenate, store the row, reset)')
+    rs, seed, run, init, app, cat, store, reset = body
+    if not (isinstance(rs, ast.For) and U(rs.iter) == 'self.responses' and len(rs.body) == 1 and isinstance(rs.target, ast.Name)
+            and U(rs.body[0]) == f'{rs.target.id}.reset()' and not rs.orelse):
+        raise Unsupported('MMA.response: sensitivities of all responses are not reset before the seed is set: ' + U(rs)[:100])
+    if not (isinstance(seed, ast.Assign) and U(seed.targets[0]) == f'{rname}.sensitivity'
+            and U(seed.value) in (f'{rname}.state * 0 + 1.0', f'0 * {rname}.state + 1.0', '1.0')):
+        raise Unsupported('MMA.response: seed of the response: ' + U(seed)[:100])
+    if U(run) != 'self.funbl.sensitivity()' or U(reset) != 'self.funbl.reset()':
+        raise Unsupported('MMA.response: sensitivity run / reset for the next response: ' + U(run)[:60] + ' ... ' + U(reset)[:60])
+    if not (isinstance(init, ast.Assign) and isinstance(init.targets[0], ast.Name) and U(init.value) == '[]'):
+        raise Unsupported('MMA.response: the list of sensitivities must start empty for every response: ' + U(init)[:80])
+    lname = init.targets[0].id
+    if not (isinstance(app, ast.For) and U(app.iter) == 'self.variables' and isinstance(app.target, ast.Name) and not app.orelse and len(app.body) == 1
+            and isinstance(app.body[0], ast.Expr) and isinstance(app.body[0].value, ast.Call) and U(app.body[0].value.func) == f'{lname}.append'
+            and len(app.body[0].value.args) == 1 and not app.body[0].value.keywords):
+        raise Unsupported('MMA.response: one append per variable signal expected: ' + U(app)[:120])
+    v = app.target.id
+    item = app.body[0].value.args[0]
+
+    def value(n):
+        if U(n) == f'{v}.sensitivity':
+            return 'g'
+        if U(n) in (f'0 * {v}.state', f'{v}.state * 0', f'0.0 * {v}.state', f'{v}.state * 0.0'):
+            return 'smap zmul state'
+        raise Unsupported('MMA.response: entry of the sensitivity list: ' + U(n)[:100])
+    if not (isinstance(item, ast.IfExp) and isinstance(item.test, ast.Compare) and len(item.test.ops) == 1
+            and U(item.test.left) == f'{v}.sensitivity' and U(item.test.comparators[0]) == 'None'
+            and isinstance(item.test.ops[0], (ast.Is, ast.IsNot))):
+        raise Unsupported('MMA.response: `<sensitivity> if <sensitivity> is not None else <zeros>` expected: ' + U(item)[:120])
+    some, none = (item.body, item.orelse) if isinstance(item.test.ops[0], ast.IsNot) else (item.orelse, item.body)
+    vs, vn = value(some), value(none)
+    if vn == 'g':
+        raise Unsupported('MMA.response: a None sensitivity is used as a value')
+    out.append('  (* sens_list.append(<item>) for every variable signal: its sensitivity, or 0*state when it has none *)\n'
+               '  Definition gen_sens_item (zmul : A -> A) (state : sval A) (sens : option (sval A)) : sval A :=\n'
+               f'    match sens with Some g => {vs} | None => {vn} end.\n')
+    if not (isinstance(cat, ast.Assign) and isinstance(cat.targets[0], ast.Tuple) and len(cat.targets[0].elts) == 2
+            and isinstance(cat.targets[0].elts[0], ast.Name) and U(cat.value) == f'_concatenate_to_array({lname})'):
+        raise Unsupported('MMA.response: the row is not the concatenation of the list: ' + U(cat)[:100])
+    row = cat.targets[0].elts[0].id
+    if not (isinstance(store, ast.AugAssign) and isinstance(store.op, ast.Add) and isinstance(store.target, ast.Name)
+            and U(store.value) in (f'({row},)',)):
+        raise Unsupported('MMA.response: the row is not appended to the tuple of rows: ' + U(store)[:100])
+    rows = store.target.id
+    # the tuple of rows starts empty in EVERY iteration (inside the while loop, before the loop over the responses) ...
+    before = wb[:wb.index(rl)]
+    inits = [s for s in before if isinstance(s, ast.Assign) and U(s.targets[0]) == rows]
+    if len(inits) != 1 or U(inits[0].value) != '()':
+        raise Unsupported(f'MMA.response: `{rows} = ()` expected inside the iteration loop before the sensitivities are collected')
+    # ... is bound nowhere else, and the rows, the list and the row are not kept anywhere else
+    for nm, cnt in ((rows, 2), (lname, 1), (row, 1)):
+        st = _stores_of(fn, nm)
+        if len(st) != cnt:
+            raise Unsupported(f'MMA.response: {nm} is bound {len(st)} times, expected {cnt}')
+    # and mmasub gets exactly these rows
+    calls = [n for n in ast.walk(loop) if isinstance(n, ast.Call) and U(n.func) == 'self.mmasub']
+    if len(calls) != 1 or len(calls[0].args) != 3 or calls[0].keywords or U(calls[0].args[2]) != f'np.vstack({rows})':
+        raise Unsupported('MMA.response: mmasub must be called once with np.vstack(<rows of this iteration>)')
+    after = wb[wb.index(rl) + 1:]
+    if not any(calls[0] in list(ast.walk(s)) for s in after):
+        raise Unsupported('MMA.response: mmasub is not called after the sensitivities were collected')
+    out.append('  (* dff, _ = _concatenate_to_array(sens_list) with sens_list built from [] for this response *)\n'
+               '  Definition gen_sens_row (zmul : A -> A) (states : list (sval A)) (sens : list (option (sval A))) : list A :=\n'
+               '    fst (concat_to_array (map (fun p => gen_sens_item zmul (fst p) (snd p)) (combine states sens))).\n')
+
+
 VARS_HEADER = """(* GENERATED by tools/gen_C10.py from pymoto/common/mma.py (MMA.response: variable handling) -- do not edit *)
 From Coq Require Import Arith List Bool.
 From Pymoto Require Import Model.MMAvars.
@@ -1221,6 +1323,7 @@ def generate_vars(repo):
     tree, _ = parse_file(os.path.join(repo, 'pymoto/common/mma.py'))
     out = [VARS_HEADER]
     gen_response_vars(find_class(tree, 'MMA'), out)
+    gen_response_sens(find_class(tree, 'MMA'), out)
     out.append('End Gen.\n')
     return '\n'.join(out)
 
